@@ -910,6 +910,9 @@ impl<T> Sender<T> {
                     return Err(SendErrorTimeout::Closed);
                 }
             }
+            // Safety: the receiver took ownership of the value through the
+            // signal, the local copy must not be dropped again
+            core::mem::forget(d);
             Ok(())
         }
         // if the queue is not empty send the data
